@@ -1,5 +1,5 @@
 (* KKTSparseAllProofs.v -- C13 / T1b, T2 for the sparse KKT_ALL_ELIMINATED back end (model KKTSparseAll.v), identity ordering. *)
-From PIQP Require Import Base CSC C14LemmasProofs CSCProofs TransposeProofs LinAlg KKTProofs KKTSparseFull KKTSparseFullProofs KKTSparseAll.
+From PIQP Require Import Base CSC C14LemmasProofs CSCProofs TransposeProofs LinAlg KKTProofs KKTSparseFull KKTSparseFullProofs KKTSparseFullPermProofs KKTSparseAll KKTSparseAllTrProofs.
 Local Open Scope nat_scope.
 
 (* ================================================================ strictly increasing lists; filter of a range *)
@@ -480,7 +480,7 @@ Proof.
 Qed.
 
 Theorem scatter_product_ok (tmp : Vec) : n <= length tmp -> (forall i, nth i tmp 0%Qc = 0%Qc) ->
-  exists cx, scatter_product X XT C wt tmp = Ok (mkcsc (nrows C) (ncols C) (colptr C) (rowind C) cx, tmp) /\
+  exists cx, scatter_product X XT C wt tmp = Ok (csc_set_vals C cx, tmp) /\
     length cx = nnz C /\
     forall j q, j < n -> cp C j <= q < cp C (S j) -> nth q (rowind C) 0 <= j -> nth q cx 0%Qc = prodval (nth q (rowind C) 0%nat) j.
 Proof.
@@ -648,11 +648,11 @@ Hypothesis Hinc : forall j, j < n -> inc (cols j).
 Hypothesis Hrow : forall j r, j < n -> In r (cols j) -> r < n.
 Variable cx : Vec.
 Let M0 := csc_of_cols n cols (fun _ _ => 0%Qc).
-Let M := set_vals M0 cx.
+Let M := csc_set_vals M0 cx.
 Hypothesis Lcx : length cx = coff cols n.
 
 Lemma ocv_wf : wf_csc M = true.
-Proof. apply wf_set_vals; [apply oc_wf; auto|]. unfold nnz, M0. now rewrite (proj1 (ofcols_nnz n cols (fun _ _ => 0%Qc))). Qed.
+Proof. apply (wf_set_vals M0 cx); [apply oc_wf; auto|]. unfold nnz, M0. now rewrite (proj1 (ofcols_nnz n cols (fun _ _ => 0%Qc))). Qed.
 Lemma ocv_get_in j i : j < n -> i < length (cols j) -> csc_get M (nth i (cols j) 0) j = nth (coff cols j + i) cx 0%Qc.
 Proof.
   intros Hj Hi. rewrite (csc_get_at M _ j i).
@@ -751,3 +751,832 @@ Proof.
     apply csc_get_zero. intros q Hq Eq. apply Hout. apply (col_rows_In X HwX j l ltac:(lia)). eauto.
 Qed.
 End ProdPattern.
+
+(* ================================================================ the cached transposes *)
+(* X is a valid cache of the transpose of XT (n x r): well formed, the right outer index, the transposed values, and it was
+   produced by transpose_no_alloc from a matrix with the pattern of XT (so that re-transposing keeps its inner indices) *)
+Definition same_pat (A B : csc F) : Prop :=
+  colptr A = colptr B /\ rowind A = rowind B /\ ncols A = ncols B /\ nrows A = nrows B /\ length (vals A) = length (vals B).
+Definition cache_ok (n r : nat) (XT X : csc F) : Prop :=
+  wf_csc X = true /\ ncols X = n /\ nrows X = r /\ colptr X = transpose_colptr XT /\
+  (forall l j, j < n -> csc_get X l j = csc_get XT j l) /\
+  exists A0 C0, same_pat A0 XT /\ transpose_no_alloc A0 C0 = Ok X /\ colptr X = colptr C0.
+
+Lemma same_pat_refl A : same_pat A A. Proof. repeat split. Qed.
+
+Lemma csc_transpose_ok XT n r : wf_csc XT = true -> nrows XT = n -> ncols XT = r ->
+  exists X, csc_transpose XT = Ok X /\ cache_ok n r XT X.
+Proof.
+  intros Hw Hn Hr. unfold csc_transpose. cbv zeta.
+  destruct (transpose_after_alloc XT (repeat 0 (length (rowind XT))) (repeat (0%Qc : F) (length (rowind XT))) Hw) as (X & E & R1 & R2 & R3 & R4); try apply repeat_length.
+  exists X. split; [exact E|]. split.
+  - apply (tr_wf XT _ X E); auto. apply tr_buffer_wf; auto.
+  - split; [congruence|]. split; [congruence|]. split; [exact R3|]. split; [intros l j Hj; apply R4; lia|].
+    eexists XT, _. split; [apply same_pat_refl|]. split; [exact E|exact R3].
+Qed.
+
+Lemma transpose_colptr_pat (A B : csc F) : rowind A = rowind B -> nrows A = nrows B -> transpose_colptr A = transpose_colptr B.
+Proof. unfold transpose_colptr. now intros -> ->. Qed.
+
+Lemma retranspose_ok XT0 XT1 X n r : cache_ok n r XT0 X -> same_pat XT1 XT0 -> wf_csc XT1 = true -> nrows XT1 = n -> ncols XT1 = r ->
+  exists X', transpose_no_alloc XT1 X = Ok X' /\ cache_ok n r XT1 X' /\ rowind X' = rowind X /\ colptr X' = colptr X.
+Proof.
+  intros (HwX & HnX & HrX & Hcp & _ & (A0 & C0 & SP0 & E0 & Ecp0)) SP Hw1 Hn1 Hr1.
+  pose proof SP as (P1 & P2 & P3 & P4 & P5).
+  assert (Hlen : length (count_rows (nrows XT1) (rowind XT1)) = nrows XT1) by (unfold count_rows; now rewrite map_length, seq_length).
+  assert (Ecp1 : colptr X = transpose_colptr XT1) by (rewrite Hcp; symmetry; apply transpose_colptr_pat; auto).
+  destruct (transpose_no_alloc_spec XT1 X Hw1) as (X' & E & R1 & R2 & R3 & R4).
+  - rewrite Ecp1. unfold transpose_colptr. now rewrite cumsum_length, Hlen.
+  - apply (wf_cp0 X HwX).
+  - intros i Hi. rewrite Ecp1. unfold transpose_colptr. rewrite cumsum_S by lia. f_equal.
+    unfold count_rows, cnt. rewrite (nth_indep _ 0 (length (filter (Nat.eqb 0) (rowind XT1)))) by (rewrite map_length, seq_length; lia).
+    rewrite (map_nth (fun i => length (filter (Nat.eqb i) (rowind XT1)))). rewrite seq_nth by lia. reflexivity.
+  - rewrite Hn1, <- HnX. rewrite (wf_cp_last X HwX). lia.
+  - apply (wf_vals_len X HwX).
+  - exists X'. split; [exact E|].
+    assert (Erow : rowind X' = rowind X).
+    { destruct SP0 as (Q1 & Q2 & Q3 & Q4 & Q5).
+      apply (retranspose_rows A0 XT1 (rowind X)) with (C0 := C0); auto; congruence. }
+    split; [|auto]. split.
+    + apply (tr_wf XT1 X X' E); auto. congruence.
+    + split; [congruence|]. split; [congruence|]. split; [congruence|]. split; [intros l j Hj; apply R4; lia|].
+      exists XT1, X. split; [apply same_pat_refl|]. split; [exact E|exact R3].
+Qed.
+
+Lemma pp_eq X XT n : nrows XT = n -> prod_upper_pattern X XT = csc_of_cols n (prod_col X XT) (fun _ _ => 0%Qc).
+Proof. intros <-. reflexivity. Qed.
+
+(* col_rows only depends on the pattern *)
+Lemma col_rows_pat {V W} (A : csc V) (B : csc W) j : colptr A = colptr B -> rowind A = rowind B -> col_rows A j = col_rows B j.
+Proof. unfold col_rows. now intros -> ->. Qed.
+
+(* ================================================================ init_workspace *)
+Definition pvals (n : nat) (X XT : csc F) (r : nat) (wt : option (Vec * Vec * F)) (cx : Vec) : Prop :=
+  let C := prod_upper_pattern X XT in
+  length cx = nnz C /\
+  forall j q, j < n -> cp C j <= q < cp C (S j) -> nth q (rowind C) 0 <= j -> nth q cx 0%Qc = prodval X XT r wt (nth q (rowind C) 0) j.
+
+Lemma scatter_cache_ok (n r : nat) XT X wt (cx0 : Vec) : wf_csc XT = true -> nrows XT = n -> ncols XT = r -> cache_ok n r XT X -> wt_ok r wt ->
+  length cx0 = nnz (prod_upper_pattern X XT) ->
+  exists cx, scatter_product X XT (csc_set_vals (prod_upper_pattern X XT) cx0) wt (repeat 0%Qc n) = Ok (csc_set_vals (prod_upper_pattern X XT) cx, repeat 0%Qc n) /\
+             pvals n X XT r wt cx.
+Proof.
+  intros HwT HnT HrT (HwX & HnX & HrX & _) Hwt L0.
+  assert (HwC : wf_csc (csc_set_vals (prod_upper_pattern X XT) cx0) = true) by (apply (wf_set_vals (prod_upper_pattern X XT)); auto; apply (pp_wf X XT n r); auto).
+  destruct (scatter_product_ok X XT (csc_set_vals (prod_upper_pattern X XT) cx0) n r wt HwX HwT HwC HnX HrX HrT HnT) with (tmp := repeat 0%Qc n)
+    as (cx & E & L & Hv); auto.
+  - apply (pp_touch X XT n r); auto.
+  - apply (pp_dist X XT n r); auto.
+  - rewrite repeat_length. lia.
+  - intros. apply nth_repeat.
+  - exists cx. split; [exact E|]. split; [exact L|exact Hv].
+Qed.
+
+Section Workspace.
+Variable d : sdata.
+Hypothesis Hwf : wf_sdata d.
+Local Notation n := (sd_n d). Local Notation p := (sd_p d). Local Notation m := (sd_m d).
+Local Notation AT := (sd_AT d). Local Notation GT := (sd_GT d).
+
+Theorem all_workspace_ok delta : (1 + delta)%Qc <> 0%Qc ->
+  exists A G ax gx,
+    all_workspace d delta = Ok (A, G, csc_set_vals (prod_upper_pattern A AT) ax,
+                                csc_set_vals (prod_upper_pattern G GT) (map (fun v => (v * (1 / (1 + delta)))%Qc) gx), repeat 0%Qc n) /\
+    cache_ok n p AT A /\ cache_ok n m GT G /\ pvals n A AT p None ax /\ pvals n G GT m None gx.
+Proof.
+  intros Hd1. pose proof Hwf as (_ & _ & _ & HwAT & HrAT & HcAT & HwGT & HrGT & HcGT).
+  destruct (csc_transpose_ok AT n p HwAT HrAT HcAT) as (A & EA & CA).
+  destruct (csc_transpose_ok GT n m HwGT HrGT HcGT) as (G & EG & CG).
+  unfold all_workspace. rewrite EA, EG. cbn [bind]. cbv zeta.
+  pose proof CA as (_ & HnA & _). pose proof CG as (_ & HnG & _). rewrite HnA, HnG, Nat.max_id.
+  destruct (scatter_cache_ok n p AT A None (vals (prod_upper_pattern A AT)) HwAT HrAT HcAT CA I) as (ax & E1 & V1).
+  { apply (vals_len _ (pp_wf A AT n p HnA (proj1 (proj2 (proj2 CA))) HcAT HrAT)). }
+  destruct (scatter_cache_ok n m GT G None (vals (prod_upper_pattern G GT)) HwGT HrGT HcGT CG I) as (gx & E2 & V2).
+  { apply (vals_len _ (pp_wf G GT n m HnG (proj1 (proj2 (proj2 CG))) HcGT HrGT)). }
+  change (csc_set_vals (prod_upper_pattern A AT) (vals (prod_upper_pattern A AT))) with (prod_upper_pattern A AT) in E1.
+  change (csc_set_vals (prod_upper_pattern G GT) (vals (prod_upper_pattern G GT))) with (prod_upper_pattern G GT) in E2.
+  unfold Vec, F in *. rewrite E1. cbn [bind]. rewrite E2. cbn [bind]. rewrite qdiv_nz by auto. cbn [bind].
+  exists A, G, ax, gx. split; [reflexivity|]. auto.
+Qed.
+End Workspace.
+
+(* ================================================================ create_kkt_matrix *)
+Section Kkt.
+Variable d : sdata.
+Hypothesis Hwf : wf_sdata d.
+Local Notation n := (sd_n d).
+Local Notation P := (sd_P d).
+Hypothesis Hup : upper_only P = true.
+Hypothesis Hsorted : sorted_colsb P = true.
+Variables (ca cg : nat -> list nat) (ax gx : Vec).
+Hypothesis Hinca : forall j, j < n -> inc (ca j).
+Hypothesis Hincg : forall j, j < n -> inc (cg j).
+Hypothesis Hlea : forall j r, j < n -> In r (ca j) -> r <= j.
+Hypothesis Hleg : forall j r, j < n -> In r (cg j) -> r <= j.
+Hypothesis Lax : length ax = coff ca n.
+Hypothesis Lgx : length gx = coff cg n.
+Let ATA := csc_set_vals (csc_of_cols n ca (fun _ _ => 0%Qc)) ax.
+Let GTG := csc_set_vals (csc_of_cols n cg (fun _ _ => 0%Qc)) gx.
+Definition kcols_of : nat -> list nat := sum_col n P ATA GTG.
+Local Notation kcols := kcols_of.
+
+Lemma P_sorted j u v : j < n -> cp P j <= u -> u < v -> v < cp P (S j) -> nth u (rowind P) 0 < nth v (rowind P) 0.
+Proof.
+  intros Hj Hu Huv Hv. destruct Hwf as (HwP & _ & HcP & _).
+  assert (Hstep : forall k, cp P j <= k -> S k < cp P (S j) -> nth k (rowind P) 0 < nth (S k) (rowind P) 0).
+  { intros k Hk1 Hk2. unfold sorted_colsb in Hsorted. rewrite forallb_forall in Hsorted. specialize (Hsorted j ltac:(apply in_seq; lia)).
+    rewrite forallb_forall in Hsorted. specialize (Hsorted k ltac:(apply in_seq; unfold clen; lia)).
+    apply orb_true_iff in Hsorted as [H|H]; [apply Nat.eqb_eq in H; lia|now apply Nat.ltb_lt in H]. }
+  induction Huv as [|v' Huv IH]; [apply Hstep; lia|]. specialize (IH ltac:(lia)). specialize (Hstep v' ltac:(lia) Hv). lia.
+Qed.
+
+Lemma Hrowa j r : j < n -> In r (ca j) -> r < n. Proof. intros Hj H. apply Hlea in H; auto. lia. Qed.
+Lemma Hrowg j r : j < n -> In r (cg j) -> r < n. Proof. intros Hj H. apply Hleg in H; auto. lia. Qed.
+
+Lemma ATA_cols j : j < n -> col_rows ATA j = ca j.
+Proof. intros Hj. change (col_rows ATA j) with (col_rows (csc_of_cols n ca (fun _ _ => 0%Qc)) j). apply oc_col_rows; auto. apply Hrowa. Qed.
+Lemma GTG_cols j : j < n -> col_rows GTG j = cg j.
+Proof. intros Hj. change (col_rows GTG j) with (col_rows (csc_of_cols n cg (fun _ _ => 0%Qc)) j). apply oc_col_rows; auto. apply Hrowg. Qed.
+
+Lemma kcols_in j r : j < n -> In r (kcols j) <-> r < n /\ (In r (col_rows P j) \/ r = j \/ In r (ca j) \/ In r (cg j)).
+Proof.
+  intros Hj. unfold kcols_of, sum_col. rewrite filter_In, in_seq, !orb_true_iff, !memb_In, Nat.eqb_eq, ATA_cols, GTG_cols by auto. intuition lia.
+Qed.
+Lemma kcols_inc j : inc (kcols j). Proof. apply inc_filter_seq. Qed.
+Lemma kcols_row j r : j < n -> In r (kcols j) -> r < n. Proof. intros Hj H. apply kcols_in in H; tauto. Qed.
+Lemma kcols_diag j : j < n -> In j (kcols j). Proof. intros Hj. apply kcols_in; auto. Qed.
+Lemma kcols_le j r : j < n -> In r (kcols j) -> r <= j.
+Proof.
+  intros Hj H. destruct Hwf as (HwP & _ & HcP & _). apply kcols_in in H as [_ [H|[H|[H|H]]]]; auto; try lia.
+  apply (col_rows_In P HwP j _ ltac:(lia)) in H as (i0 & Hi0 & <-).
+  unfold upper_only in Hup. rewrite forallb_forall in Hup. specialize (Hup j ltac:(apply in_seq; lia)). rewrite forallb_forall in Hup.
+  apply Nat.leb_le. apply Hup. apply in_seq. fold (cp P j) (cp P (S j)). unfold clen in Hi0. lia.
+Qed.
+
+Lemma srcP_ok : src_ok n kcols P.
+Proof.
+  pose proof Hwf as (HwP & HrP & HcP & _). split; auto. split; auto. split; [intros; now apply (P_sorted j)|].
+  intros j u Hj Hu. apply kcols_in; auto. split.
+  - rewrite <- HrP. apply wf_rows; auto. pose proof (cp_le_nnz P HwP (S j) ltac:(lia)). unfold nnz in *. lia.
+  - left. apply (col_rows_In P HwP j _ ltac:(lia)). exists (u - cp P j). split; [unfold clen; lia|]. f_equal. lia.
+Qed.
+Lemma srcA_ok : src_ok n kcols ATA.
+Proof. apply ocv_src_ok; auto. apply Hrowa. intros j r Hj H. apply kcols_in; auto. split; [now apply (Hrowa j)|tauto]. Qed.
+Lemma srcG_ok : src_ok n kcols GTG.
+Proof. apply ocv_src_ok; auto. apply Hrowg. intros j r Hj H. apply kcols_in; auto. split; [now apply (Hrowg j)|tauto]. Qed.
+
+Definition kval_of (rho dinv : F) (i j : nat) : F :=
+  (csc_get P i j + (if i =? j then rho else 0) + dinv * csc_get ATA i j + csc_get GTG i j)%Qc.
+
+Theorem all_kkt_ok rho delta : delta <> 0%Qc ->
+  exists p2k a2k g2k,
+    all_kkt d rho delta ATA GTG = Ok (csc_of_cols n kcols (kval_of rho (1 / delta)%Qc), p2k, a2k, g2k) /\
+    map_ok n kcols P p2k /\ map_ok n kcols ATA a2k /\ map_ok n kcols GTG g2k.
+Proof.
+  intros Hd. unfold all_kkt. rewrite qdiv_nz by auto. cbn [bind]. cbv zeta.
+  change (kkt_sum n P ATA GTG rho (1 / delta)%Qc) with (csc_of_cols n kcols (kval_of rho (1 / delta)%Qc)).
+  destruct (compute_maps_ok n kcols (kval_of rho (1 / delta)%Qc) (fun j _ => kcols_inc j) P ATA GTG srcP_ok srcA_ok srcG_ok
+              (repeat 0 (nnz P)) (repeat 0 (nnz ATA)) (repeat 0 (nnz GTG))) as (p2k & a2k & g2k & E & M1 & M2 & M3); try apply repeat_length.
+  rewrite E. cbn [bind]. exists p2k, a2k, g2k. auto.
+Qed.
+
+(* the assembled sum: well formed, upper triangular, diagonal last, and its entries *)
+Let K (rho dinv : F) := csc_of_cols n kcols (kval_of rho dinv).
+
+Lemma K_wf rho dinv : wf_csc (K rho dinv) = true.
+Proof. apply oc_wf. apply kcols_row. Qed.
+Lemma K_upper rho dinv : upper_only (K rho dinv) = true.
+Proof.
+  unfold upper_only. change (ncols (K rho dinv)) with n. apply forallb_forall. intros j Hj. apply in_seq in Hj.
+  apply forallb_forall. intros q Hq. apply in_seq in Hq.
+  change (nth j (colptr (K rho dinv)) 0) with (cp (K rho dinv) j) in Hq. change (nth (S j) (colptr (K rho dinv)) 0) with (cp (K rho dinv) (S j)) in Hq.
+  unfold K in *. rewrite !ofcols_cp in Hq by lia. cbn [coff] in Hq.
+  apply Nat.leb_le. replace q with (coff kcols j + (q - coff kcols j)) by lia. rewrite ofcols_row by lia.
+  apply kcols_le; [lia|]. apply nth_In. lia.
+Qed.
+Lemma K_diag_last rho dinv : diag_is_last (K rho dinv).
+Proof.
+  intros j Hj. unfold K in *. cbn [ncols csc_of_cols] in Hj. rewrite !ofcols_cp by lia. cbn [coff].
+  destruct (inc_last (kcols j) j (kcols_inc j) (kcols_diag j Hj) (fun y Hy => kcols_le j y Hj Hy)) as [El Hpos].
+  split; [lia|]. replace (coff kcols j + length (kcols j) - 1) with (coff kcols j + (length (kcols j) - 1)) by lia.
+  rewrite ofcols_row by lia. exact El.
+Qed.
+Lemma K_get rho dinv i j : j < n -> i <> j \/ True -> csc_get (K rho dinv) i j = kval_of rho dinv i j.
+Proof.
+  intros Hj _. pose proof Hwf as (HwP & _ & HcP & _).
+  destruct (in_dec Nat.eq_dec i (kcols j)) as [Hin|Hout].
+  - destruct (In_pos _ j i Hin) as (t & Ht & <-). unfold K. rewrite (oc_get_in n kcols _ (fun j _ => kcols_inc j)) by auto. reflexivity.
+  - unfold K. rewrite (oc_get_out n kcols) by auto.
+    assert (Hne : i <> j) by (intros ->; apply Hout; now apply kcols_diag).
+    destruct (Nat.lt_ge_cases i n) as [Hi|Hi].
+    + assert (Z1 : csc_get P i j = 0%Qc).
+      { apply csc_get_zero. intros i0 Hi0 E. apply Hout. apply kcols_in; auto. split; [lia|]. left. apply (col_rows_In P HwP j _ ltac:(lia)). eauto. }
+      assert (Z2 : csc_get ATA i j = 0%Qc).
+      { unfold ATA. apply ocv_get_out; auto. intros H. apply Hout. apply (proj2 (kcols_in j i Hj)). split; [lia|tauto]. }
+      assert (Z3 : csc_get GTG i j = 0%Qc).
+      { unfold GTG. apply ocv_get_out; auto. intros H. apply Hout. apply (proj2 (kcols_in j i Hj)). split; [lia|tauto]. }
+      unfold kval_of. rewrite Z1, Z2, Z3. destruct (Nat.eqb_spec i j); [contradiction|]. fring.
+    + assert (Z1 : csc_get P i j = 0%Qc).
+      { apply csc_get_zero. intros i0 Hi0 E. pose proof Hwf as (_ & HrP & _).
+        assert (nth (cp P j + i0) (rowind P) 0 < nrows P) by (apply wf_rows; auto; apply cp_pos_lt; auto; lia). lia. }
+      assert (Z2 : csc_get ATA i j = 0%Qc).
+      { unfold ATA. apply ocv_get_out; auto. intros H. apply Hrowa in H; auto; lia. }
+      assert (Z3 : csc_get GTG i j = 0%Qc).
+      { unfold GTG. apply ocv_get_out; auto. intros H. apply Hrowg in H; auto; lia. }
+      unfold kval_of. rewrite Z1, Z2, Z3. destruct (Nat.eqb_spec i j); [contradiction|]. fring.
+Qed.
+End Kkt.
+
+(* ================================================================ init_workspace + create_kkt_matrix together *)
+Lemma pvals_len n X XT r wt cx : nrows XT = n -> pvals n X XT r wt cx -> length cx = coff (prod_col X XT) n.
+Proof. intros Hn [L _]. rewrite L. unfold nnz. rewrite (pp_eq X XT n Hn). apply (ofcols_nnz n (prod_col X XT) (fun _ _ => 0%Qc)). Qed.
+
+(* entries of a cached product: the exact sums on and off the pattern *)
+Lemma pvals_get n r X XT wt cx i j : wf_csc X = true -> wf_csc XT = true -> ncols X = n -> nrows X = r -> ncols XT = r -> nrows XT = n ->
+  pvals n X XT r wt cx -> i <= j -> j < n ->
+  csc_get (csc_set_vals (csc_of_cols n (prod_col X XT) (fun _ _ => 0%Qc)) cx) i j = prodval X XT r wt i j.
+Proof.
+  intros HwX HwT HnX HrX HnT HrT Hp Hij Hj. pose proof (pvals_len n X XT r wt cx HrT Hp) as L. destruct Hp as [_ Hv].
+  rewrite (pp_eq X XT n HrT) in Hv.
+  destruct (in_dec Nat.eq_dec i (prod_col X XT j)) as [Hin|Hout].
+  - destruct (In_pos _ j i Hin) as (t & Ht & <-).
+    rewrite ocv_get_in; auto; try (intros; apply prod_col_inc).
+    rewrite (Hv j (coff (prod_col X XT) j + t)); auto.
+    + rewrite ofcols_row by auto. reflexivity.
+    + rewrite !ofcols_cp by lia. cbn [coff]. lia.
+    + rewrite ofcols_row by auto. exact Hij.
+  - rewrite ocv_get_out; auto. symmetry. apply (prodval_out X XT n r); auto.
+Qed.
+
+Section CreateAll.
+Variable d : sdata.
+Hypothesis Hwf : wf_sdata d.
+Local Notation n := (sd_n d). Local Notation p := (sd_p d). Local Notation m := (sd_m d).
+Local Notation P := (sd_P d). Local Notation AT := (sd_AT d). Local Notation GT := (sd_GT d).
+Hypothesis Hup : upper_only P = true.
+Hypothesis Hsorted : sorted_colsb P = true.
+
+(* the cached products of a state, by their column functions and values *)
+Definition ATA_of (A : csc F) (ax : Vec) : csc F := csc_set_vals (csc_of_cols n (prod_col A AT) (fun _ _ => 0%Qc)) ax.
+Definition GTG_of (G : csc F) (gx : Vec) : csc F := csc_set_vals (csc_of_cols n (prod_col G GT) (fun _ _ => 0%Qc)) gx.
+Definition kcols_all (A G : csc F) : nat -> list nat := kcols_of d (prod_col A AT) (prod_col G GT) [] [].
+
+Lemma kcols_all_eq A G ax gx : kcols_all A G = sum_col n P (ATA_of A ax) (GTG_of G gx).
+Proof. reflexivity. Qed.
+
+Theorem all_create_ok rho delta : delta <> 0%Qc -> (1 + delta)%Qc <> 0%Qc ->
+  exists A G ax gx p2k a2k g2k,
+    let gx' := map (fun v => (v * (1 / (1 + delta)))%Qc) gx in
+    let kcols := kcols_all A G in
+    all_create d rho delta =
+      Ok (mkallmat (csc_of_cols n kcols (kval_of d (prod_col A AT) (prod_col G GT) ax gx' rho (1 / delta)%Qc))
+                   p2k a2k g2k A G (ATA_of A ax) (GTG_of G gx') (repeat 0%Qc n)) /\
+    cache_ok n p AT A /\ cache_ok n m GT G /\ pvals n A AT p None ax /\ pvals n G GT m None gx /\
+    map_ok n kcols P p2k /\ map_ok n kcols (ATA_of A ax) a2k /\ map_ok n kcols (GTG_of G gx') g2k.
+Proof.
+  intros Hd Hd1. pose proof Hwf as (_ & _ & _ & HwAT & HrAT & HcAT & HwGT & HrGT & HcGT).
+  destruct (all_workspace_ok d Hwf delta Hd1) as (A & G & ax & gx & EW & CA & CG & VA & VG).
+  set (gx' := map (fun v => (v * (1 / (1 + delta)))%Qc) gx).
+  assert (LA : length ax = coff (prod_col A AT) n) by (apply (pvals_len n A AT p None); auto).
+  assert (LG : length gx' = coff (prod_col G GT) n) by (unfold gx'; rewrite map_length; apply (pvals_len n G GT m None); auto).
+  destruct (all_kkt_ok d Hwf Hsorted (prod_col A AT) (prod_col G GT) ax gx') with (rho := rho) (delta := delta)
+    as (p2k & a2k & g2k & EK & M1 & M2 & M3); auto; try (intros; apply prod_col_inc); try (intros j r0 Hj H; now apply prod_col_le in H).
+  exists A, G, ax, gx, p2k, a2k, g2k. cbv zeta. fold gx'. split; [|auto 10].
+  unfold all_create. rewrite EW. cbn [bind].
+  rewrite (pp_eq A AT n HrAT), (pp_eq G GT n HrGT). fold gx'. fold (ATA_of A ax). fold (GTG_of G gx').
+  unfold ATA_of, GTG_of in *. rewrite EK. cbn [bind]. reflexivity.
+Qed.
+End CreateAll.
+
+(* ================================================================ the accumulation loops of update_kkt_*_scalings *)
+Lemma for_range_split {S} lo mid hi (f : nat -> S -> res S) s : lo <= mid -> mid <= hi ->
+  for_range lo hi f s = (do s' <- for_range lo mid f s ;; for_range mid hi f s').
+Proof.
+  intros H1 H2. unfold for_range. replace (hi - lo) with ((mid - lo) + (hi - mid)) by lia.
+  rewrite seq_app, foldM_app. replace (lo + (mid - lo)) with mid by lia. reflexivity.
+Qed.
+
+(* a loop over the columns whose body ignores the column index is a loop over all stored entries *)
+Lemma for_cols_flat {V S} (M : csc V) (body : nat -> S -> res S) : wf_csc M = true -> forall s,
+  for_range 0 (ncols M) (fun j s => do lo <- get (colptr M) j ;; do hi <- get (colptr M) (Datatypes.S j) ;; for_range lo hi body s) s
+  = for_range 0 (nnz M) body s.
+Proof.
+  intros Hw. rewrite <- (cp_last M Hw).
+  assert (H : forall c, c <= ncols M -> forall s,
+             for_range 0 c (fun j s => do lo <- get (colptr M) j ;; do hi <- get (colptr M) (Datatypes.S j) ;; for_range lo hi body s) s
+             = for_range 0 (cp M c) body s).
+  { induction c; intros Hc s.
+    - rewrite (cp_0 M Hw). reflexivity.
+    - rewrite (for_range_split 0 c (Datatypes.S c)) by lia. rewrite IHc by lia.
+      rewrite (for_range_split 0 (cp M c) (cp M (Datatypes.S c))); try lia.
+      2:{ rewrite (cp_S M Hw c) by lia. lia. }
+      destruct (for_range 0 (cp M c) body s) as [s1|]; cbn [bind]; [|reflexivity].
+      unfold for_range at 1. replace (Datatypes.S c - c) with 1 by lia. cbn [seq foldM].
+      rewrite (get_cp M Hw c), (get_cp M Hw (Datatypes.S c)) by lia. cbn [bind].
+      destruct (for_range (cp M c) (cp M (Datatypes.S c)) body s1); reflexivity. }
+  intros s. apply H. lia.
+Qed.
+
+Lemma add_vals_ok (m2k pki : list nat) (c : option F) (src : Vec) cnt (kx0 : Vec) L (tgt : nat -> nat) :
+  (forall k, k < cnt -> k < length m2k /\ nth k m2k 0 < length pki /\ nth (nth k m2k 0) pki 0 = tgt k /\ tgt k < L) ->
+  cnt <= length src -> length kx0 = L ->
+  exists kx, add_vals m2k pki c src cnt kx0 = Ok kx /\ length kx = L /\
+    forall q, nth q kx 0%Qc = (nth q kx0 0 + qsum (map (fun k => if tgt k =? q then match c with None => nth k src 0 | Some c => c * nth k src 0 end else 0) (seq 0 cnt)))%Qc.
+Proof.
+  intros Ht Ls L0. unfold add_vals.
+  destruct (for_range_ind (fun j (kx : Vec) => length kx = L /\
+      forall q, nth q kx 0%Qc = (nth q kx0 0 + qsum (map (fun k => if tgt k =? q then match c with None => nth k src 0 | Some c => c * nth k src 0 end else 0) (seq 0 j)))%Qc)
+    0 cnt (fun k kx => do q0 <- get m2k k ;; do q <- get pki q0 ;; do v <- get src k ;; do old <- get kx q ;;
+                       upd kx q (old + match c with None => v | Some c => c * v end)%Qc) kx0) as (kx & E & L1 & H1); try lia.
+  - split; auto. intros q. cbn [seq map]. unfold qsum; cbn. fring.
+  - intros k kx [_ Hk] (Lk & Hq). destruct (Ht k Hk) as (T1 & T2 & T3 & T4).
+    rewrite (get_nth m2k k 0) by auto. cbn [bind]. rewrite (get_nth pki _ 0) by auto. cbn [bind]. rewrite T3.
+    rewrite (get_nth src k 0%Qc) by lia. cbn [bind]. rewrite (get_nth kx _ 0%Qc) by lia. cbn [bind].
+    rewrite upd_lset by lia. eexists; split; [reflexivity|]. split; [now rewrite lset_length|].
+    intros q. rewrite nth_lset by lia. rewrite qsum_map_seq_S. cbn [Nat.add]. rewrite (Nat.eqb_sym q).
+    destruct (Nat.eqb_spec (tgt k) q) as [<-|Ne]; rewrite Hq; fring.
+  - exists kx. auto.
+Qed.
+
+(* the contributions of a source of the sum to one stored entry of K add up to its entry *)
+Section SrcSum.
+Variables (n : nat) (kcols : nat -> list nat) (Src : csc F) (mp : list nat).
+Hypothesis Hinc : forall j, j < n -> inc (kcols j).
+Hypothesis HS : src_ok n kcols Src.
+Hypothesis HM : map_ok n kcols Src mp.
+
+Lemma src_sum (c : F) j t : j < n -> t < length (kcols j) ->
+  qsum (map (fun k => if nth k mp 0 =? coff kcols j + t then (c * nth k (vals Src) 0)%Qc else 0%Qc) (seq 0 (nnz Src)))
+  = (c * csc_get Src (nth t (kcols j) 0%nat) j)%Qc.
+Proof.
+  intros Hj Ht. destruct HS as (Hw & Hc & Hs & Hu). destruct HM as [Lm Hm].
+  unfold csc_get. cbv zeta. fold (cp Src j) (cp Src (S j)).
+  assert (B1 : cp Src j <= cp Src (S j)) by (rewrite (cp_S Src Hw j) by lia; lia).
+  assert (B2 : cp Src (S j) <= nnz Src) by (apply cp_le_nnz; auto; lia).
+  rewrite (qsum_range_extend _ (cp Src j) (cp Src (S j)) (nnz Src)) by auto.
+  rewrite (Qcmult_comm c). rewrite <- qsum_map_scale_r.
+  apply qsum_map_ext. intros k Hk. apply in_seq in Hk.
+  destruct (pos_decomp Src Hw k ltac:(lia)) as (j' & u & Hj' & Hu' & ->). rewrite Hc in Hj'.
+  assert (EcS : cp Src (S j') = cp Src j' + clen Src j') by (apply cp_S; auto; lia).
+  destruct (Hm j' (cp Src j' + u) Hj' ltac:(lia)) as (t' & Ht' & Er & Em). rewrite Em.
+  destruct (Nat.eq_dec j' j) as [->|Nj].
+  - destruct (Nat.leb_spec (cp Src j) (cp Src j + u)) as [?Hy|?Hn]; [|lia].
+    destruct (Nat.ltb_spec (cp Src j + u) (cp Src (S j))) as [?Hy|?Hn]; [|lia]. cbn [andb].
+    destruct (Nat.eqb_spec (coff kcols j + t') (coff kcols j + t)) as [Eq|Ne].
+    + assert (t' = t) by lia. subst t'. rewrite <- Er, Nat.eqb_refl. fring.
+    + destruct (Nat.eqb_spec (nth (cp Src j + u) (rowind Src) 0) (nth t (kcols j) 0)) as [Eq|?Hn]; [|fring].
+      exfalso. rewrite <- Er in Eq. apply inc_inj in Eq; auto; lia.
+  - assert (Hout : (cp Src j <=? cp Src j' + u) && (cp Src j' + u <? cp Src (S j)) = false).
+    { destruct (Nat.lt_ge_cases j' j).
+      - assert (cp Src (S j') <= cp Src j) by (apply (off_mono (cp Src) (clen Src) (ncols Src)); try lia; intros; now apply cp_S).
+        destruct (Nat.leb_spec (cp Src j) (cp Src j' + u)); [lia|reflexivity].
+      - assert (cp Src (S j) <= cp Src j') by (apply (off_mono (cp Src) (clen Src) (ncols Src)); try lia; intros; now apply cp_S).
+        destruct (Nat.ltb_spec (cp Src j' + u) (cp Src (S j))); [lia|]. now rewrite andb_false_r. }
+    rewrite Hout.
+    destruct (Nat.eqb_spec (coff kcols j' + t') (coff kcols j + t)) as [Eq|Ne]; [|fring].
+    exfalso. apply (off_unique (coff kcols) (fun j => length (kcols j)) n) in Eq; auto. destruct Eq; contradiction.
+Qed.
+End SrcSum.
+
+(* ================================================================ the state invariant and the refresh *)
+Lemma diag_add_ok (pinv kp : list nat) (N L : nat) (dp : nat -> nat) (rho : F) (kx0 : Vec) :
+  (forall col, col < N -> dpos pinv kp col = Ok (dp col)) -> (forall col, col < N -> dp col < L) ->
+  (forall c c', c < N -> c' < N -> dp c = dp c' -> c = c') -> length kx0 = L ->
+  exists kx, for_range 0 N (fun col kx => do q <- dpos pinv kp col ;; do old <- get kx q ;; upd kx q (old + rho)%Qc) kx0 = Ok kx /\
+    length kx = L /\ (forall col, col < N -> nth (dp col) kx 0%Qc = (nth (dp col) kx0 0 + rho)%Qc) /\
+    (forall q, (forall col, col < N -> dp col <> q) -> nth q kx 0%Qc = nth q kx0 0%Qc).
+Proof.
+  intros Hdp Hlt Hinj L0.
+  destruct (for_range_ind (fun j (kx : Vec) => length kx = L /\
+      (forall col, col < j -> nth (dp col) kx 0%Qc = (nth (dp col) kx0 0 + rho)%Qc) /\
+      (forall col, j <= col < N -> nth (dp col) kx 0%Qc = nth (dp col) kx0 0%Qc) /\
+      (forall q, (forall col, col < N -> dp col <> q) -> nth q kx 0%Qc = nth q kx0 0%Qc))
+    0 N (fun col kx => do q <- dpos pinv kp col ;; do old <- get kx q ;; upd kx q (old + rho)%Qc) kx0) as (kx & E & L1 & H1 & _ & H3); try lia.
+  - split; auto. split; [intros; lia|]. split; auto.
+  - intros col kx [_ Hc] (Lk & A1 & A2 & A3). rewrite Hdp by auto. cbn [bind].
+    assert (dp col < length kx) by (rewrite Lk; auto). rewrite (get_nth kx _ 0%Qc) by auto. cbn [bind]. rewrite upd_lset by auto.
+    eexists; split; [reflexivity|]. split; [now rewrite lset_length|]. split; [|split].
+    + intros c' Hc'. rewrite nth_lset by auto. destruct (Nat.eqb_spec (dp c') (dp col)) as [Eq|Ne].
+      * apply Hinj in Eq; try lia. subst. rewrite A2 by lia. reflexivity.
+      * apply A1. destruct (Nat.eq_dec c' col); [subst; congruence|lia].
+    + intros c' Hc'. rewrite nth_lset by auto. destruct (Nat.eqb_spec (dp c') (dp col)) as [Eq|Ne]; [apply Hinj in Eq; lia|]. apply A2. lia.
+    + intros q Hq. rewrite nth_lset by auto. destruct (Nat.eqb_spec q (dp col)) as [Eq|Ne]; [exfalso; apply (Hq col); auto|]. now apply A3.
+  - exists kx. auto.
+Qed.
+
+(* data-only forms of the two products *)
+Definition SAd (d : sdata) (i j : nat) : F := sum_n (sd_p d) (fun l => (csc_get (sd_AT d) i l * csc_get (sd_AT d) j l)%Qc).
+Definition SGd (d : sdata) (c : scal) (i j : nat) : F :=
+  sum_n (sd_m d) (fun l => (1 / (nth l (sc_s c) 0 * nth l (sc_z_inv c) 0 + sc_delta c) * csc_get (sd_GT d) i l * csc_get (sd_GT d) j l)%Qc).
+
+Lemma prodval_cache n r XT X wt i j : cache_ok n r XT X -> j < n -> prodval X XT r wt i j = sum_n r (fun l => (wt_val wt l * csc_get XT i l * csc_get XT j l)%Qc).
+Proof. intros (_ & _ & _ & _ & Hg & _) Hj. unfold prodval. apply sum_n_ext. intros l Hl. now rewrite Hg. Qed.
+
+(* the entry of the reduced operator the code assembles at (i, j), i <= j *)
+Definition Kall (d : sdata) (c : scal) (i j : nat) : F :=
+  (csc_get (sd_P d) i j + (if i =? j then sc_rho c + a_bdiag (sys_sparse d c) i else 0)
+   + 1 / sc_delta c * SAd d i j + SGd d c i j)%Qc.
+
+Definition all_scal_ok (d : sdata) (c : scal) : Prop :=
+  scal_ok d c /\ sc_delta c <> 0%Qc /\ forall l, l < sd_m d -> (nth l (sc_s c) 0 * nth l (sc_z_inv c) 0 + sc_delta c)%Qc <> 0%Qc.
+
+Section StateAll.
+Variable d : sdata.
+Hypothesis Hwf : wf_sdata d.
+Local Notation n := (sd_n d). Local Notation p := (sd_p d). Local Notation m := (sd_m d).
+Local Notation P := (sd_P d). Local Notation AT := (sd_AT d). Local Notation GT := (sd_GT d).
+Hypothesis Hup : upper_only P = true.
+Hypothesis Hsorted : sorted_colsb P = true.
+
+(* everything of the state except the scalings and the values of PKPt / GT_W_delta_inv_G (identity ordering) *)
+Definition all_static (k : akkt) : Prop :=
+  exists ax gx,
+    let A := ak_A k in let G := ak_G k in let kcols := kcols_all d A G in
+    cache_ok n p AT A /\ cache_ok n m GT G /\
+    ak_ATA k = ATA_of d A ax /\ ak_GTG k = GTG_of d G gx /\
+    pvals n A AT p None ax /\ length gx = coff (prod_col G GT) n /\
+    ak_pinv k = seq 0 n /\ ak_PKi k = seq 0 (coff kcols n) /\
+    ak_kp k = colptr (csc_of_cols n kcols (fun _ _ => 0%Qc)) /\ ak_ki k = rowind (csc_of_cols n kcols (fun _ _ => 0%Qc)) /\
+    map_ok n kcols P (ak_P2K k) /\ map_ok n kcols (ATA_of d A ax) (ak_A2K k) /\ map_ok n kcols (GTG_of d G gx) (ak_G2K k) /\
+    ak_tmp k = repeat 0%Qc n /\ length (ak_kx k) = coff kcols n.
+
+(* canonical values: the entry (i, j) of K_red(data, scalings) at the position of (i, j) *)
+Definition all_form (c : scal) (k : akkt) : Prop :=
+  all_static k /\ ak_sc k = c /\
+  let kcols := kcols_all d (ak_A k) (ak_G k) in
+  forall j t, j < n -> t < length (kcols j) -> nth (coff kcols j + t) (ak_kx k) 0%Qc = Kall d c (nth t (kcols j) 0) j.
+
+Section WithCaches.
+Variables (A G : csc F).
+Hypothesis CA : cache_ok n p AT A.
+Hypothesis CG : cache_ok n m GT G.
+Local Notation ca := (prod_col A AT). Local Notation cg := (prod_col G GT).
+Local Notation kcols := (kcols_all d A G).
+Let Hlea : forall j r, j < n -> In r (ca j) -> r <= j. Proof. intros j r _ H. now apply prod_col_le in H. Qed.
+Let Hleg : forall j r, j < n -> In r (cg j) -> r <= j. Proof. intros j r _ H. now apply prod_col_le in H. Qed.
+
+Let ax0 : Vec := repeat 0%Qc (coff ca n).
+Let gx0 : Vec := repeat 0%Qc (coff cg n).
+Let L1 : length ax0 = coff ca n. Proof. apply repeat_length. Qed.
+Let L2 : length gx0 = coff cg n. Proof. apply repeat_length. Qed.
+Lemma kc_in j r : j < n -> In r (kcols j) <-> r < n /\ (In r (col_rows P j) \/ r = j \/ In r (ca j) \/ In r (cg j)).
+Proof. exact (kcols_in d ca cg ax0 gx0 Hlea Hleg L1 L2 j r). Qed.
+Lemma kc_inc j : inc (kcols j). Proof. apply inc_filter_seq. Qed.
+Lemma kc_diag j : j < n -> In j (kcols j). Proof. exact (kcols_diag d ca cg ax0 gx0 Hlea Hleg L1 L2 j). Qed.
+Lemma kc_le j r : j < n -> In r (kcols j) -> r <= j. Proof. exact (kcols_le d Hwf Hup ca cg ax0 gx0 Hlea Hleg L1 L2 j r). Qed.
+Lemma kc_row j r : j < n -> In r (kcols j) -> r < n. Proof. intros Hj H. apply kc_le in H; auto. lia. Qed.
+
+Definition dpA (col : nat) : nat := coff kcols (S col) - 1.
+Lemma kc_pos j : j < n -> 0 < length (kcols j).
+Proof. intros Hj. pose proof (kc_diag j Hj) as H. destruct (kcols j); [inversion H|cbn; lia]. Qed.
+Lemma dpA_eq col : col < n -> dpA col = coff kcols col + (length (kcols col) - 1).
+Proof. intros Hc. unfold dpA. cbn [coff]. pose proof (kc_pos col Hc). lia. Qed.
+Lemma dpA_lt col : col < n -> dpA col < coff kcols n.
+Proof. intros Hc. rewrite dpA_eq by auto. pose proof (kc_pos col Hc). apply (off_lt (coff kcols) (fun j => length (kcols j)) n); auto; lia. Qed.
+Lemma dpA_inj c c' : c < n -> c' < n -> dpA c = dpA c' -> c = c'.
+Proof.
+  intros Hc Hc'. rewrite !dpA_eq by auto. intros E. pose proof (kc_pos c Hc). pose proof (kc_pos c' Hc').
+  apply (off_unique (coff kcols) (fun j => length (kcols j)) n) in E; auto; try lia; tauto.
+Qed.
+Lemma dpos_all col : col < n -> dpos (seq 0 n) (colptr (csc_of_cols n kcols (fun _ _ => 0%Qc))) col = Ok (dpA col).
+Proof.
+  intros Hc. unfold dpos. rewrite (get_nth (seq 0 n) col 0) by (rewrite seq_length; auto). rewrite seq_nth by auto. cbn [bind Nat.add].
+  rewrite (get_nth _ (S col) 0) by (rewrite ofcols_cp_len; lia). cbn [bind].
+  change (nth (S col) (colptr (csc_of_cols n kcols (fun _ _ => 0%Qc))) 0) with (cp (csc_of_cols n kcols (fun _ _ => 0%Qc)) (S col)).
+  rewrite ofcols_cp by lia. apply pred_chk_pos. cbn [coff]. pose proof (kc_pos col Hc). lia.
+Qed.
+(* the last entry of a column is its diagonal, and only it *)
+Lemma kc_diag_iff j t : j < n -> t < length (kcols j) -> (nth t (kcols j) 0 = j <-> S t = length (kcols j)).
+Proof.
+  intros Hj Ht.
+  destruct (inc_last (kcols j) j (kc_inc j) (kc_diag j Hj) (fun y Hy => kc_le j y Hj Hy)) as [El _].
+  split.
+  - intros E. assert (E' : nth t (kcols j) 0 = nth (length (kcols j) - 1) (kcols j) 0) by congruence.
+    apply inc_inj in E'; auto; try lia. apply kc_inc.
+  - intros E. replace t with (length (kcols j) - 1) by lia. exact El.
+Qed.
+
+(* maps of the three sources address positions below the number of stored entries *)
+Lemma map_lt (S0 : csc F) mp : src_ok n kcols S0 -> map_ok n kcols S0 mp -> forall k, k < nnz S0 -> nth k mp 0 < coff kcols n.
+Proof.
+  intros (Hw & Hc & _) [_ Hm] k Hk. destruct (pos_decomp S0 Hw k Hk) as (j & u & Hj & Hu & ->). rewrite Hc in Hj.
+  destruct (Hm j (cp S0 j + u) Hj) as (t & Ht & _ & ->). { rewrite (cp_S S0 Hw j) by lia. lia. }
+  apply (off_lt (coff kcols) (fun j => length (kcols j)) n); auto; lia.
+Qed.
+
+(* one accumulation pass through a map, at a stored entry of K *)
+Lemma add_pass (S0 : csc F) mp (c : option F) (kx0 : Vec) : src_ok n kcols S0 -> map_ok n kcols S0 mp -> length kx0 = coff kcols n ->
+  exists kx, add_vals mp (seq 0 (coff kcols n)) c (vals S0) (nnz S0) kx0 = Ok kx /\ length kx = coff kcols n /\
+    forall j t, j < n -> t < length (kcols j) ->
+      nth (coff kcols j + t) kx 0%Qc = (nth (coff kcols j + t) kx0 0 + match c with None => 1 | Some c => c end * csc_get S0 (nth t (kcols j) 0%nat) j)%Qc.
+Proof.
+  intros HS HM L0. pose proof HS as (Hw & _). pose proof HM as [Lm _].
+  destruct (add_vals_ok mp (seq 0 (coff kcols n)) c (vals S0) (nnz S0) kx0 (coff kcols n) (fun k => nth k mp 0)) as (kx & E & L & Hq); auto.
+  - intros k Hk. pose proof (map_lt S0 mp HS HM k Hk). rewrite seq_length. split; [lia|]. split; auto. split; [now rewrite seq_nth|auto].
+  - rewrite (vals_len S0 Hw). lia.
+  - exists kx. split; auto. split; auto. intros j t Hj Ht. rewrite Hq. f_equal.
+    rewrite <- (src_sum n kcols S0 mp (fun j _ => kc_inc j) HS HM _ j t Hj Ht).
+    apply qsum_map_ext. intros k Hk. destruct (_ =? _); [|reflexivity]. destruct c; fring.
+Qed.
+
+Lemma map_ok_pat (S0 S1 : csc F) mp : colptr S1 = colptr S0 -> rowind S1 = rowind S0 -> map_ok n kcols S0 mp -> map_ok n kcols S1 mp.
+Proof. intros E1 E2 [L H]. unfold map_ok, nnz, cp in *. rewrite E1, E2. auto. Qed.
+
+Lemma LaxA ax : pvals n A AT p None ax -> length ax = coff ca n.
+Proof. destruct Hwf as (_ & _ & _ & _ & HrAT & _). apply pvals_len; auto. Qed.
+Lemma LgxG wt gx : pvals n G GT m wt gx -> length gx = coff cg n.
+Proof. destruct Hwf as (_ & _ & _ & _ & _ & _ & _ & HrGT & _). apply pvals_len; auto. Qed.
+
+Lemma ATA_get ax i j : pvals n A AT p None ax -> i <= j -> j < n -> csc_get (ATA_of d A ax) i j = SAd d i j.
+Proof.
+  intros Hp Hij Hj. pose proof Hwf as (_ & _ & _ & HwAT & HrAT & HcAT & _). pose proof CA as (HwA & HnA & HrA & _).
+  unfold ATA_of. rewrite (pvals_get n p A AT None ax i j) by auto. rewrite (prodval_cache n p AT A None i j CA Hj).
+  unfold SAd. apply sum_n_ext. intros l Hl. cbn [wt_val]. fring.
+Qed.
+Lemma GTG_get c gx i j : pvals n G GT m (Some (sc_s c, sc_z_inv c, sc_delta c)) gx -> i <= j -> j < n -> csc_get (GTG_of d G gx) i j = SGd d c i j.
+Proof.
+  intros Hp Hij Hj. pose proof Hwf as (_ & _ & _ & _ & _ & _ & HwGT & HrGT & HcGT). pose proof CG as (HwG & HnG & HrG & _).
+  unfold GTG_of. rewrite (pvals_get n m G GT (Some (sc_s c, sc_z_inv c, sc_delta c)) gx i j) by auto. rewrite (prodval_cache n m GT G _ i j CG Hj).
+  unfold SGd. apply sum_n_ext. intros l Hl. cbn [wt_val]. reflexivity.
+Qed.
+
+Theorem all_refresh_core k ax gx c :
+  ak_A k = A -> ak_G k = G -> ak_sc k = c -> all_scal_ok d c ->
+  ak_ATA k = ATA_of d A ax -> ak_GTG k = GTG_of d G gx -> pvals n A AT p None ax -> length gx = coff cg n ->
+  ak_pinv k = seq 0 n -> ak_PKi k = seq 0 (coff kcols n) -> ak_kp k = colptr (csc_of_cols n kcols (fun _ _ => 0%Qc)) ->
+  map_ok n kcols P (ak_P2K k) -> map_ok n kcols (ATA_of d A ax) (ak_A2K k) -> map_ok n kcols (GTG_of d G gx) (ak_G2K k) ->
+  ak_tmp k = repeat 0%Qc n -> length (ak_kx k) = coff kcols n ->
+  exists kx gx', all_refresh d k = Ok (ak_set_GTG k kx (GTG_of d G gx') (repeat 0%Qc n)) /\ length kx = coff kcols n /\
+    pvals n G GT m (Some (sc_s c, sc_z_inv c, sc_delta c)) gx' /\
+    forall j t, j < n -> t < length (kcols j) -> nth (coff kcols j + t) kx 0%Qc = Kall d c (nth t (kcols j) 0) j.
+Proof.
+  intros EA EG Ec (Hsc & Hdnz & Hwnz) EATA EGTG VA Lgx Epinv Epki Ekp MP MA MG Etmp Lkx.
+  pose proof Hwf as (HwP & HrP & HcP & HwAT & HrAT & HcAT & HwGT & HrGT & HcGT).
+  pose proof (LaxA ax VA) as Lax.
+  assert (SP : src_ok n kcols P) by (exact (srcP_ok d Hwf Hsorted ca cg ax0 gx0 Hlea Hleg L1 L2)).
+  assert (SA : src_ok n kcols (ATA_of d A ax)) by (exact (srcA_ok d ca cg ax gx (fun j _ => prod_col_inc A AT j) Hlea Hleg Lax Lgx)).
+  destruct Hsc as (S1 & S2 & B1 & B2 & B3 & B4 & B5 & B6 & B7 & B8 & I1 & I2 & Z1 & Z2).
+  unfold all_refresh.
+  (* cost: zero, add P, add rho on the diagonal *)
+  unfold all_cost_scalings. rewrite Lkx, Epki, Epinv, Ekp, Ec.
+  rewrite (for_cols_flat P _ HwP).
+  change (for_range 0 (nnz P) (fun q kx => do q0 <- get (ak_P2K k) q ;; do qq <- get (seq 0 (coff kcols n)) q0 ;; do v <- get (vals P) q ;; do old <- get kx qq ;; upd kx qq (old + v)%Qc) (repeat 0%Qc (coff kcols n)))
+    with (add_vals (ak_P2K k) (seq 0 (coff kcols n)) None (vals P) (nnz P) (repeat 0%Qc (coff kcols n))).
+  destruct (add_pass P (ak_P2K k) None (repeat 0%Qc (coff kcols n)) SP MP (repeat_length _ _)) as (kx1 & E1 & Lk1 & H1).
+  rewrite E1. cbn [bind].
+  destruct (diag_add_ok (seq 0 n) (colptr (csc_of_cols n kcols (fun _ _ => 0%Qc))) n (coff kcols n) dpA (sc_rho c) kx1 dpos_all dpA_lt dpA_inj Lk1)
+    as (kx2 & E2 & Lk2 & H2 & H2').
+  rewrite E2. cbn [bind].
+  (* equality *)
+  unfold all_equality_scalings. rewrite Ec, Epki, EATA. rewrite qdiv_nz by auto. cbn [bind].
+  destruct (add_pass (ATA_of d A ax) (ak_A2K k) (Some (1 / sc_delta c)%Qc) kx2 SA MA Lk2) as (kx3 & E3 & Lk3 & H3).
+  change (vals (ATA_of d A ax)) with ax in *. unfold Vec, F in *. rewrite E3. cbn [bind].
+  (* inequality *)
+  unfold all_inequality_scaling. rewrite EG, EGTG, Ec, Etmp, Epki.
+  assert (Hwt : wt_ok m (Some (sc_s c, sc_z_inv c, sc_delta c))) by (unfold wt_ok; unfold Vec, F in *; split; [lia|split; [lia|exact Hwnz]]).
+  destruct (scatter_cache_ok n m GT G (Some (sc_s c, sc_z_inv c, sc_delta c)) gx HwGT HrGT HcGT CG Hwt) as (gx' & E4 & V4).
+  { transitivity (coff cg n); [exact Lgx|]. symmetry. unfold nnz. rewrite (pp_eq G GT n HrGT). apply (ofcols_nnz n cg (fun _ _ => 0%Qc)). }
+  rewrite (pp_eq G GT n HrGT) in E4. fold (GTG_of d G gx) in E4. fold (GTG_of d G gx') in E4.
+  unfold Vec, F in *. rewrite E4. cbn [bind].
+  pose proof (LgxG _ gx' V4) as Lgx'.
+  assert (SG : src_ok n kcols (GTG_of d G gx')) by (exact (srcG_ok d ca cg ax gx' (fun j _ => prod_col_inc G GT j) Hlea Hleg Lax Lgx')).
+  assert (MG' : map_ok n kcols (GTG_of d G gx') (ak_G2K k)) by (apply (map_ok_pat (GTG_of d G gx)); auto).
+  destruct (add_pass (GTG_of d G gx') (ak_G2K k) None kx3 SG MG' Lk3) as (kx4 & E5 & Lk4 & H4).
+  change (vals (GTG_of d G gx')) with gx' in *. change (nnz (GTG_of d G gx')) with (nnz (GTG_of d G gx)) in *.
+  unfold Vec, F in *. rewrite E5. cbn [bind].
+  (* box *)
+  unfold all_box_scalings. rewrite Epinv, Ekp, Ec.
+  destruct (box_scalings_ok (seq 0 n) (colptr (csc_of_cols n kcols (fun _ _ => 0%Qc))) n (coff kcols n) dpA dpos_all dpA_lt dpA_inj
+              n (sd_nlb d) (sd_lbidx d) (sd_lbs d) (sc_z_lb_inv c) (sc_s_lb c) (sc_delta c) kx4) as (kx5 & E6 & Lk5 & H5 & H5'); auto.
+  unfold Vec, F in *. rewrite E6. cbn [bind].
+  destruct (box_scalings_ok (seq 0 n) (colptr (csc_of_cols n kcols (fun _ _ => 0%Qc))) n (coff kcols n) dpA dpos_all dpA_lt dpA_inj
+              n (sd_nub d) (sd_ubidx d) (sd_ubs d) (sc_z_ub_inv c) (sc_s_ub c) (sc_delta c) kx5) as (kx6 & E7 & Lk6 & H6 & H6'); auto.
+  unfold Vec, F in *. rewrite E7. cbn [bind].
+  exists kx6, gx'. split; [reflexivity|]. split; [exact Lk6|]. split; [exact V4|].
+  (* the values *)
+  intros j t Hj Ht. set (i := nth t (kcols j) 0). assert (Hij : i <= j) by (apply kc_le; auto; apply nth_In; auto).
+  unfold Kall. rewrite <- (ATA_get ax i j VA Hij Hj), <- (GTG_get c gx' i j V4 Hij Hj).
+  destruct (Nat.eq_dec (S t) (length (kcols j))) as [Ed|Nd].
+  - (* the diagonal entry *)
+    assert (Ei : i = j) by (apply (kc_diag_iff j t); auto).
+    assert (Eq : coff kcols j + t = dpA j) by (rewrite dpA_eq by auto; lia).
+    rewrite Eq. rewrite H6, H5 by auto. rewrite <- Eq. rewrite H4, H3 by auto. rewrite Eq, H2 by auto. rewrite <- Eq, H1 by auto.
+    rewrite nth_repeat. fold i. rewrite Ei, Nat.eqb_refl.
+    rewrite <- (box_sum_a_bdiag d c j). unfold box_sum. fring.
+  - assert (Ni : i <> j) by (intros E; apply (kc_diag_iff j t) in E; auto).
+    assert (Hnd : forall col, col < n -> dpA col <> coff kcols j + t).
+    { intros col Hc E. rewrite dpA_eq in E by auto. pose proof (kc_pos col Hc).
+      apply (off_unique (coff kcols) (fun j => length (kcols j)) n) in E; auto; try lia. destruct E as [-> E]. lia. }
+    rewrite H6', H5' by auto. rewrite H4, H3 by auto. rewrite H2' by auto. rewrite H1 by auto.
+    rewrite nth_repeat. fold i. destruct (Nat.eqb_spec i j); [contradiction|]. fring.
+Qed.
+End WithCaches.
+End StateAll.
+
+(* ================================================================ top level (identity ordering) *)
+Section TopAll.
+Variable d : sdata.
+Hypothesis Hwf : wf_sdata d.
+Local Notation n := (sd_n d). Local Notation p := (sd_p d). Local Notation m := (sd_m d).
+Local Notation P := (sd_P d). Local Notation AT := (sd_AT d). Local Notation GT := (sd_GT d).
+Hypothesis Hup : upper_only P = true.
+Hypothesis Hsorted : sorted_colsb P = true.
+
+Lemma ak_set_sc_fields k c : ak_A (ak_set_sc k c) = ak_A k /\ ak_G (ak_set_sc k c) = ak_G k /\ ak_sc (ak_set_sc k c) = c /\
+  ak_ATA (ak_set_sc k c) = ak_ATA k /\ ak_GTG (ak_set_sc k c) = ak_GTG k /\ ak_pinv (ak_set_sc k c) = ak_pinv k /\
+  ak_PKi (ak_set_sc k c) = ak_PKi k /\ ak_kp (ak_set_sc k c) = ak_kp k /\ ak_ki (ak_set_sc k c) = ak_ki k /\
+  ak_P2K (ak_set_sc k c) = ak_P2K k /\ ak_A2K (ak_set_sc k c) = ak_A2K k /\ ak_G2K (ak_set_sc k c) = ak_G2K k /\
+  ak_tmp (ak_set_sc k c) = ak_tmp k /\ ak_kx (ak_set_sc k c) = ak_kx k.
+Proof. destruct k. cbn. repeat split. Qed.
+
+(* the four refresh calls bring any state with the static invariant into canonical form for its scalings *)
+Theorem all_refresh_form k : all_static d k -> all_scal_ok d (ak_sc k) ->
+  exists k', all_refresh d k = Ok k' /\ all_form d (ak_sc k) k'.
+Proof.
+  intros (ax & gx & CA & CG & EATA & EGTG & VA & Lgx & Epinv & Epki & Ekp & Eki & MP & MA & MG & Etmp & Lkx) Hsc. cbv zeta in *.
+  destruct (all_refresh_core d Hwf Hup Hsorted (ak_A k) (ak_G k) CA CG k ax gx (ak_sc k)) as (kx & gx' & E & Lk & V & Hv); auto.
+  eexists. split; [exact E|].
+  assert (F : forall k0 kx0 G0 t0, ak_A (ak_set_GTG k0 kx0 G0 t0) = ak_A k0 /\ ak_G (ak_set_GTG k0 kx0 G0 t0) = ak_G k0 /\
+            ak_sc (ak_set_GTG k0 kx0 G0 t0) = ak_sc k0 /\ ak_ATA (ak_set_GTG k0 kx0 G0 t0) = ak_ATA k0 /\ ak_GTG (ak_set_GTG k0 kx0 G0 t0) = G0 /\
+            ak_pinv (ak_set_GTG k0 kx0 G0 t0) = ak_pinv k0 /\ ak_PKi (ak_set_GTG k0 kx0 G0 t0) = ak_PKi k0 /\ ak_kp (ak_set_GTG k0 kx0 G0 t0) = ak_kp k0 /\
+            ak_ki (ak_set_GTG k0 kx0 G0 t0) = ak_ki k0 /\ ak_P2K (ak_set_GTG k0 kx0 G0 t0) = ak_P2K k0 /\ ak_A2K (ak_set_GTG k0 kx0 G0 t0) = ak_A2K k0 /\
+            ak_G2K (ak_set_GTG k0 kx0 G0 t0) = ak_G2K k0 /\ ak_tmp (ak_set_GTG k0 kx0 G0 t0) = t0 /\ ak_kx (ak_set_GTG k0 kx0 G0 t0) = kx0)
+    by (intros [] ? ? ?; cbn; repeat split).
+  destruct (F k kx (GTG_of d (ak_G k) gx') (repeat 0%Qc n)) as (F1 & F2 & F3 & F4 & F5 & F6 & F7 & F8 & F9 & F10 & F11 & F12 & F13 & F14).
+  split; [|split].
+  - exists ax, gx'. cbv zeta. rewrite F1, F2, F4, F5, F6, F7, F8, F9, F10, F11, F12, F13, F14.
+    assert (Lgx' : length gx' = coff (prod_col (ak_G k) GT) n) by (destruct Hwf as (_ & _ & _ & _ & _ & _ & _ & HrGT & _); apply (pvals_len n _ GT m _ gx' HrGT V)).
+    split; [exact CA|]. split; [exact CG|]. split; [exact EATA|]. split; [reflexivity|]. split; [exact VA|]. split; [exact Lgx'|].
+    split; [exact Epinv|]. split; [exact Epki|]. split; [exact Ekp|]. split; [exact Eki|]. split; [exact MP|]. split; [exact MA|].
+    split; [apply (map_ok_pat d (ak_A k) (ak_G k) (GTG_of d (ak_G k) gx)); auto|]. split; [reflexivity|exact Lk].
+  - exact F3.
+  - cbv zeta. rewrite F1, F2, F14. exact Hv.
+Qed.
+
+Lemma all_static_set_sc k c : all_static d k -> all_static d (ak_set_sc k c).
+Proof.
+  intros H. destruct (ak_set_sc_fields k c) as (F1 & F2 & F3 & F4 & F5 & F6 & F7 & F8 & F9 & F10 & F11 & F12 & F13 & F14).
+  unfold all_static in *. rewrite F1, F2, F4, F5, F6, F7, F8, F9, F10, F11, F12, F13, F14. exact H.
+Qed.
+
+(* (c) update_scalings from ANY state with the static invariant (init, or any history): canonical form of the new scalings *)
+Theorem all_update_scalings_form k rho delta s s_lb s_ub z z_lb z_ub zi zlbi zubi :
+  all_static d k ->
+  sd_nlb d <= length s_lb -> sd_nlb d <= length z_lb -> sd_nub d <= length s_ub -> sd_nub d <= length z_ub ->
+  vinv z = Ok zi -> vinv (head (sd_nlb d) z_lb) = Ok zlbi -> vinv (head (sd_nub d) z_ub) = Ok zubi ->
+  all_scal_ok d (new_scal d (ak_sc k) rho delta s s_lb s_ub zi zlbi zubi) ->
+  exists k', all_update_scalings d k rho delta s s_lb s_ub z z_lb z_ub = Ok k' /\
+             all_form d (new_scal d (ak_sc k) rho delta s s_lb s_ub zi zlbi zubi) k'.
+Proof.
+  intros Hst L1 L2 L3 L4 E1 E2 E3 Hsc. unfold all_update_scalings, chk_len.
+  destruct (Nat.ltb_spec (length s_lb) (sd_nlb d)) as [?Hy|?Hn]; [lia|]. cbn [bind].
+  destruct (Nat.ltb_spec (length z_lb) (sd_nlb d)) as [?Hy|?Hn]; [lia|]. cbn [bind].
+  destruct (Nat.ltb_spec (length s_ub) (sd_nub d)) as [?Hy|?Hn]; [lia|]. cbn [bind].
+  destruct (Nat.ltb_spec (length z_ub) (sd_nub d)) as [?Hy|?Hn]; [lia|]. cbn [bind].
+  rewrite E1, E2, E3. cbn [bind]. cbv zeta. unfold all_apply_scalings.
+  fold (new_scal d (ak_sc k) rho delta s s_lb s_ub zi zlbi zubi).
+  set (c' := new_scal d (ak_sc k) rho delta s s_lb s_ub zi zlbi zubi) in *.
+  destruct (all_refresh_form (ak_set_sc k c')) as (k' & E & Hf).
+  - now apply all_static_set_sc.
+  - destruct (ak_set_sc_fields k c') as (_ & _ & -> & _). exact Hsc.
+  - exists k'. split; [exact E|]. destruct (ak_set_sc_fields k c') as (_ & _ & F3 & _). now rewrite F3 in Hf.
+Qed.
+
+(* what the canonical form denotes: the reduced operator K_red of KKTProofs.v over the L2 system of data and scalings *)
+Lemma SGd_aSG c i j : SGd d c i j = a_SG (sys_sparse d c) i j.
+Proof.
+  unfold SGd, a_SG, a_w. rewrite sum_n_sum. cbn [sys_sparse sys_sparse_gen y_m y_GT y_s y_zinv y_delta]. unfold fv.
+  apply sum_ext. intros l Hl. fring.
+Qed.
+Lemma SAd_aSA c i j : SAd d i j = a_SA (sys_sparse d c) i j.
+Proof. unfold SAd, a_SA. rewrite sum_n_sum. cbn [sys_sparse sys_sparse_gen y_p y_AT]. reflexivity. Qed.
+Lemma Kall_Kred c i j : i <= j -> Kall d c i j = a_Kred (sys_sparse d c) i j.
+Proof.
+  intros Hij. unfold Kall, a_Kred, a_dinv. rewrite (SGd_aSG c), (SAd_aSA c).
+  cbn [sys_sparse sys_sparse_gen y_Psym y_rho y_delta].
+  destruct (Nat.leb_spec i j) as [?Hy|?Hn]; [|lia]. fring.
+Qed.
+
+Theorem all_form_denotes c k : all_form d c k ->
+  let K := mkcsc n n (ak_kp k) (ak_ki k) (ak_kx k) in
+  wf_csc K = true /\ upper_only K = true /\ diag_is_last K /\
+  forall i j, i <= j -> j < n -> csc_get K i j = a_Kred (sys_sparse d c) i j.
+Proof.
+  intros ((ax & gx & CA & CG & EATA & EGTG & VA & Lgx & Epinv & Epki & Ekp & Eki & MP & MA & MG & Etmp & Lkx) & Ec & Hv). cbv zeta in *.
+  set (A := ak_A k) in *. set (G := ak_G k) in *.
+  assert (EK : mkcsc n n (ak_kp k) (ak_ki k) (ak_kx k) = csc_set_vals (csc_of_cols n (kcols_all d A G) (fun _ _ => 0%Qc)) (ak_kx k)) by (rewrite Ekp, Eki; reflexivity).
+  rewrite EK.
+  pose proof (kc_inc d A G) as Hinc. pose proof (kc_row d Hwf Hup A G) as Hrow.
+  split; [apply (ocv_wf n (kcols_all d A G)); auto|].
+  split.
+  { unfold upper_only. change (ncols (csc_set_vals (csc_of_cols n (kcols_all d A G) (fun _ _ => 0%Qc)) (ak_kx k))) with n.
+    apply forallb_forall. intros j Hj. apply in_seq in Hj. apply forallb_forall. intros q Hq. apply in_seq in Hq.
+    change (nth j (colptr (csc_set_vals (csc_of_cols n (kcols_all d A G) (fun _ _ => 0%Qc)) (ak_kx k))) 0) with (cp (csc_of_cols n (kcols_all d A G) (fun _ _ => 0%Qc)) j) in Hq.
+    change (nth (S j) (colptr (csc_set_vals (csc_of_cols n (kcols_all d A G) (fun _ _ => 0%Qc)) (ak_kx k))) 0) with (cp (csc_of_cols n (kcols_all d A G) (fun _ _ => 0%Qc)) (S j)) in Hq.
+    rewrite !ofcols_cp in Hq by lia. cbn [coff] in Hq. apply Nat.leb_le.
+    change (rowind (csc_set_vals (csc_of_cols n (kcols_all d A G) (fun _ _ => 0%Qc)) (ak_kx k))) with (rowind (csc_of_cols n (kcols_all d A G) (fun _ _ => 0%Qc))).
+    replace q with (coff (kcols_all d A G) j + (q - coff (kcols_all d A G) j)) by lia. rewrite ofcols_row by lia.
+    apply (kc_le d Hwf Hup A G); [lia|]. apply nth_In. lia. }
+  split.
+  { intros j Hj. change (ncols (csc_set_vals (csc_of_cols n (kcols_all d A G) (fun _ _ => 0%Qc)) (ak_kx k))) with n in Hj.
+    change (cp (csc_set_vals (csc_of_cols n (kcols_all d A G) (fun _ _ => 0%Qc)) (ak_kx k))) with (cp (csc_of_cols n (kcols_all d A G) (fun _ _ => 0%Qc))).
+    change (rowind (csc_set_vals (csc_of_cols n (kcols_all d A G) (fun _ _ => 0%Qc)) (ak_kx k))) with (rowind (csc_of_cols n (kcols_all d A G) (fun _ _ => 0%Qc))).
+    rewrite !ofcols_cp by lia. cbn [coff]. pose proof (kc_pos d A G j Hj). split; [lia|].
+    replace (coff (kcols_all d A G) j + length ((kcols_all d A G) j) - 1) with (coff (kcols_all d A G) j + (length ((kcols_all d A G) j) - 1)) by lia. rewrite ofcols_row by lia.
+    apply (kc_diag_iff d Hwf Hup A G); auto; lia. }
+  intros i j Hij Hj. rewrite <- Kall_Kred by auto.
+  destruct (in_dec Nat.eq_dec i ((kcols_all d A G) j)) as [Hin|Hout].
+  - destruct (In_pos _ j i Hin) as (t & Ht & <-). rewrite ocv_get_in by auto. apply Hv; auto.
+  - rewrite ocv_get_out by auto. symmetry.
+    assert (Hne : i <> j) by (intros ->; apply Hout; apply (kc_diag d A G); auto).
+    pose proof Hwf as (HwP & _ & HcP & HwAT & HrAT & HcAT & HwGT & HrGT & HcGT).
+    pose proof CA as (HwA & HnA & HrA & _). pose proof CG as (HwG & HnG & HrG & _).
+    assert (Z1 : csc_get P i j = 0%Qc).
+    { apply csc_get_zero. intros i0 Hi0 E. apply Hout. apply (kc_in d A G); auto. split; [lia|]. left. apply (col_rows_In P HwP j _ ltac:(lia)). eauto. }
+    assert (Z2 : SAd d i j = 0%Qc).
+    { transitivity (prodval A AT p None i j).
+      - rewrite (prodval_cache n p AT A None i j CA Hj). unfold SAd. apply sum_n_ext. intros l Hl. cbn [wt_val]. fring.
+      - apply (prodval_out A AT n p); auto. intros H. apply Hout. apply (kc_in d A G); auto. split; [lia|tauto]. }
+    assert (Z3 : SGd d c i j = 0%Qc).
+    { transitivity (prodval G GT m (Some (sc_s c, sc_z_inv c, sc_delta c)) i j).
+      - rewrite (prodval_cache n m GT G _ i j CG Hj). unfold SGd. apply sum_n_ext. intros l Hl. cbn [wt_val]. reflexivity.
+      - apply (prodval_out G GT n m); auto. intros H. apply Hout. apply (kc_in d A G); auto. split; [lia|tauto]. }
+    unfold Kall. rewrite Z1, Z2, Z3. destruct (Nat.eqb_spec i j); [contradiction|]. fring.
+Qed.
+
+(* init (identity ordering) succeeds and establishes the static invariant: every later update_scalings is covered by (c) *)
+Theorem all_init_static rho delta : delta <> 0%Qc -> (1 + delta)%Qc <> 0%Qc -> scal_ok d (unit_scal d rho delta) ->
+  exists k, all_init d rho delta None = Ok k /\ all_static d k /\ ak_sc k = unit_scal d rho delta.
+Proof.
+  intros Hd Hd1 (S1 & S2 & B1 & B2 & B3 & B4 & B5 & B6 & B7 & B8 & I1 & I2 & Z1 & Z2).
+  destruct (all_create_ok d Hwf Hsorted rho delta Hd Hd1) as (A & G & ax & gx & p2k & a2k & g2k & EC & CA & CG & VA & VG & MP & MA & MG).
+  cbv zeta in *. set (gx' := map (fun v => (v * (1 / (1 + delta)))%Qc) gx) in *.
+  set (kcols := kcols_all d A G) in *.
+  unfold all_init. rewrite EC. cbn [bind]. cbv zeta. cbn [am_K am_P2K am_A2K am_G2K am_A am_G am_ATA am_GTG am_tmp].
+  set (K := csc_of_cols n kcols (kval_of d (prod_col A AT) (prod_col G GT) ax gx' rho (1 / delta)%Qc)).
+  assert (LK : length (vals K) = coff kcols n) by (unfold K; apply ofcols_nnz).
+  assert (NK : nnz K = coff kcols n) by (unfold K, nnz; apply ofcols_nnz).
+  unfold all_box_scalings. cbn [ak_pinv ak_kp ak_sc ak_kx unit_scal sc_z_lb_inv sc_s_lb sc_delta sc_z_ub_inv sc_s_ub].
+  destruct (box_scalings_ok (seq 0 n) (colptr K) n (coff kcols n) (dpA d A G) (dpos_all d A G) (dpA_lt d A G) (dpA_inj d A G)
+              n (sd_nlb d) (sd_lbidx d) (sd_lbs d) (vconst (sd_nlb d) 1 ++ vconst (n - sd_nlb d) 0)%Qc (vconst (sd_nlb d) 1 ++ vconst (n - sd_nlb d) 0)%Qc delta (vals K))
+    as (kx1 & E1 & L1 & _ & _); auto.
+  unfold Vec, F in *. rewrite E1. cbn [bind].
+  destruct (box_scalings_ok (seq 0 n) (colptr K) n (coff kcols n) (dpA d A G) (dpos_all d A G) (dpA_lt d A G) (dpA_inj d A G)
+              n (sd_nub d) (sd_ubidx d) (sd_ubs d) (vconst (sd_nub d) 1 ++ vconst (n - sd_nub d) 0)%Qc (vconst (sd_nub d) 1 ++ vconst (n - sd_nub d) 0)%Qc delta kx1)
+    as (kx2 & E2 & L2 & _ & _); auto.
+  unfold Vec, F in *. rewrite E2. cbn [bind]. eexists. split; [reflexivity|]. split; [|reflexivity].
+  exists ax, gx'. cbn [ak_set_kx ak_A ak_G ak_ATA ak_GTG ak_pinv ak_PKi ak_kp ak_ki ak_P2K ak_A2K ak_G2K ak_tmp ak_kx]. cbv zeta.
+  fold kcols. rewrite NK.
+  split; [exact CA|]. split; [exact CG|]. split; [reflexivity|]. split; [reflexivity|]. split; [exact VA|].
+  split; [unfold gx'; rewrite map_length; apply (LgxG d Hwf G None gx VG)|].
+  split; [reflexivity|]. split; [reflexivity|]. split; [reflexivity|]. split; [reflexivity|].
+  split; [exact MP|]. split; [exact MA|]. split; [exact MG|]. split; [reflexivity|exact L2].
+Qed.
+
+(* (a) + (b) for init_workspace / create_kkt_matrix, headline form *)
+Theorem all_create_thm rho delta : delta <> 0%Qc -> (1 + delta)%Qc <> 0%Qc ->
+  exists am, all_create d rho delta = Ok am /\
+    let K := am_K am in
+    let kcols := kcols_all d (am_A am) (am_G am) in
+    nrows K = n /\ ncols K = n /\ wf_csc K = true /\ upper_only K = true /\ diag_is_last K /\
+    colptr K = colptr (csc_of_cols n kcols (fun _ _ => 0%Qc)) /\ rowind K = rowind (csc_of_cols n kcols (fun _ _ => 0%Qc)) /\
+    map_ok n kcols P (am_P2K am) /\ map_ok n kcols (am_ATA am) (am_A2K am) /\ map_ok n kcols (am_GTG am) (am_G2K am) /\
+    forall i j, i <= j -> j < n ->
+      csc_get K i j = (csc_get P i j + (if i =? j then rho else 0) + 1 / delta * SAd d i j
+                       + sum_n m (fun l => (csc_get GT i l * csc_get GT j l)%Qc) * (1 / (1 + delta)))%Qc.
+Proof.
+  intros Hd Hd1.
+  destruct (all_create_ok d Hwf Hsorted rho delta Hd Hd1) as (A & G & ax & gx & p2k & a2k & g2k & EC & CA & CG & VA & VG & MP & MA & MG).
+  cbv zeta in *. set (gx' := map (fun v => (v * (1 / (1 + delta)))%Qc) gx) in *.
+  eexists. split; [exact EC|]. cbn [am_K am_P2K am_A2K am_G2K am_A am_G am_ATA am_GTG]. cbv zeta.
+  assert (Hlea : forall j r, j < n -> In r (prod_col A AT j) -> r <= j) by (intros j r _ H; now apply prod_col_le in H).
+  assert (Hleg : forall j r, j < n -> In r (prod_col G GT j) -> r <= j) by (intros j r _ H; now apply prod_col_le in H).
+  pose proof (LaxA d Hwf A ax VA) as Lax.
+  assert (Lgx' : length gx' = coff (prod_col G GT) n) by (unfold gx'; rewrite map_length; apply (LgxG d Hwf G None gx VG)).
+  split; [reflexivity|]. split; [reflexivity|].
+  split; [exact (K_wf d _ _ ax gx' Hlea Hleg Lax Lgx' rho (1 / delta)%Qc)|].
+  split; [exact (K_upper d Hwf Hup _ _ ax gx' Hlea Hleg Lax Lgx' rho (1 / delta)%Qc)|].
+  split; [exact (K_diag_last d Hwf Hup _ _ ax gx' Hlea Hleg Lax Lgx' rho (1 / delta)%Qc)|].
+  split; [reflexivity|]. split; [reflexivity|]. split; [exact MP|]. split; [exact MA|]. split; [exact MG|].
+  intros i j Hij Hj.
+  change (csc_of_cols n (kcols_all d A G) (kval_of d (prod_col A AT) (prod_col G GT) ax gx' rho (1 / delta)%Qc))
+    with (csc_of_cols n (kcols_of d (prod_col A AT) (prod_col G GT) ax gx') (kval_of d (prod_col A AT) (prod_col G GT) ax gx' rho (1 / delta)%Qc)).
+  rewrite (K_get d Hwf _ _ ax gx' Hlea Hleg Lax Lgx' rho (1 / delta)%Qc i j Hj (or_intror I)).
+  unfold kval_of. fold (ATA_of d A ax). rewrite (ATA_get d Hwf A CA ax i j VA Hij Hj). f_equal.
+  (* the scaled G^T G *)
+  pose proof Hwf as (_ & _ & _ & _ & _ & _ & HwGT & HrGT & HcGT). pose proof CG as (HwG & HnG & HrG & _).
+  destruct (in_dec Nat.eq_dec i (prod_col G GT j)) as [Hin|Hout].
+  - destruct (In_pos _ j i Hin) as (t & Ht & <-). rewrite ocv_get_in; auto; try (intros; apply prod_col_inc).
+    unfold gx'. rewrite (nth_indep _ 0%Qc ((fun v => (v * (1 / (1 + delta)))%Qc) 0%Qc)).
+    2:{ fold gx'. rewrite Lgx'. apply (off_lt (coff (prod_col G GT)) (fun j => length (prod_col G GT j)) n); auto. }
+    rewrite (map_nth (fun v => (v * (1 / (1 + delta)))%Qc)). cbv beta. f_equal.
+    etransitivity; [symmetry; exact (ocv_get_in n (prod_col G GT) (fun j _ => prod_col_inc G GT j) gx (LgxG d Hwf G None gx VG) j t Hj Ht)|].
+    rewrite (pvals_get n m G GT None gx _ j) by auto. rewrite (prodval_cache n m GT G None _ j CG Hj).
+    apply sum_n_ext. intros l Hl. cbn [wt_val]. fring.
+  - rewrite ocv_get_out; auto.
+    assert (Z : prodval G GT m None i j = 0%Qc) by (apply (prodval_out G GT n m); auto).
+    rewrite (prodval_cache n m GT G None i j CG Hj) in Z.
+    rewrite (sum_n_ext m _ (fun l => (wt_val None l * csc_get GT i l * csc_get GT j l)%Qc)) by (intros; cbn [wt_val]; fring).
+    rewrite Z. fring.
+Qed.
+End TopAll.
